@@ -168,3 +168,12 @@ void *getcwd(void *buf_, uint64_t size){
   for (int g = 0; g < VF_FS_NODES; g++) if (g < n) { int nd = chain[n - 1 - g]; buf[o++] = '/'; for (int k = 0; k < VF_FS_NAME && vf_nodes[nd].name[k]; k++) buf[o++] = vf_nodes[nd].name[k]; }
   buf[o] = 0; return buf;
 }
+/* further stdio entry points a maintainer might reach for (same model) */
+void rewind(void *f_){ struct vfile *f = f_; __CPROVER_assert(f && f->used, "UB: rewind on a stream that is not open"); f->pos = 0; f->eof = 0; }
+uint32_t getc(void *f_){ return fgetc(f_); }
+uint32_t fputc(uint32_t c, void *f_){ uint8_t b = (uint8_t)c; return fwrite(&b, 1, 1, f_) == 1 ? (uint32_t)b : (uint32_t)-1; }
+uint32_t putc(uint32_t c, void *f_){ return fputc(c, f_); }
+uint32_t fputs(void *s_, void *f_){ const char *s = s_; uint64_t n = 0; while (s[n]) n++; return fwrite(s_, 1, n, f_) == n ? 1 : (uint32_t)-1; }
+uint32_t ferror(void *f_){ return 0; }
+void clearerr(void *f_){ struct vfile *f = f_; f->eof = 0; }
+uint32_t ungetc(uint32_t c, void *f_){ struct vfile *f = f_; if (f->pos > 0) { f->pos--; f->eof = 0; return c; } return (uint32_t)-1; }
